@@ -12,6 +12,8 @@ CONSTANTS
   FollowRetries = TRUE
   FollowAppend = TRUE
   ResyncChecksRound = TRUE
+  ResyncDeletesFirst = FALSE
+  Aborts = FALSE
   PinsOperatorHash = TRUE
   MaxAgg = 0
   QCap = 1
